@@ -511,16 +511,16 @@ func evalLevel(d *Def, v Value, o Opts, tr *Trace, level int) bool {
 				for j := 0; j < i; j++ {
 					if ValueEqual(v.Items[i], v.Items[j]) {
 						dupByValue = true
-						if sameGoTypes(v.Items[i], v.Items[j]) {
+						if sameGoTypes(v.Items[i], v.Items[j]) || (IsNumericKind(v.Items[i].Kind) && IsNumericKind(v.Items[j].Kind)) {
 							dupByGo = true
 						}
 					}
 				}
 			}
 			if dupByValue != dupByGo {
-				// equal values in different Go representations inside one []interface{} (numbers of
-				// different kinds, a nil slice beside an empty one): the statement's equality across
-				// kinds is read as applying to enum membership only
+				// equal values in different Go representations inside one []interface{} other than two plain
+				// numbers (slices of different element kinds, a nil slice beside an empty one): the
+				// statement's equality across kinds is read as applying to numbers themselves
 				tr.Excluded = append(tr.Excluded, "uniqueItems-mixed-carriers")
 			}
 			if dupByValue {
